@@ -95,6 +95,22 @@ class Harness:
         return {'h': _h(state['h'], sig), 'hist': state['hist'] + [len(clients)]}, {}
       self.algorithm = fedjax.FederatedAlgorithm(init, apply)
       self.init_state = init()
+    elif algo_kind == 'weak':
+      # a state made of JAX arrays in reduced precision plus weakly typed scalars (jnp.asarray(0.9)): what a resumed run
+      # computes depends on the restored leaves having the same dtypes AND the same weak-type flags
+      import jax.numpy as jnp
+
+      def init():
+        return {'w': jnp.asarray([1.0, -0.5, 0.25], jnp.bfloat16), 'decay': jnp.asarray(0.9), 'round': jnp.asarray(0)}
+
+      def apply(state, clients):
+        harness.inj.effect('step', 'algorithm.apply')
+        sig = tuple((bytes(c), len(d), np.asarray(k).tolist()) for c, d, k in clients)
+        bump = (_h(0, sig) % 13) / 8.0
+        return {'w': state['w'] * state['decay'] + bump * (state['round'] + 1), 'decay': state['decay'],
+                'round': state['round'] + 1}, {}
+      self.algorithm = fedjax.FederatedAlgorithm(init, apply)
+      self.init_state = init()
     else:
       import jax.numpy as jnp
       from fedjax.algorithms import fed_avg
@@ -142,7 +158,8 @@ class Harness:
   def state_digest(self, state):
     import jax
     leaves = jax.tree_util.tree_leaves(state)
-    return hashlib.sha1(repr([np.asarray(l).tolist() for l in leaves]).encode()).hexdigest()[:16]
+    return hashlib.sha1(repr([(str(getattr(l, 'dtype', type(l).__name__)), np.asarray(l, np.float64).tolist() if
+                               hasattr(l, 'dtype') else l) for l in leaves]).encode()).hexdigest()[:16]
 
   def run(self, flt, injector_cls=None):
     """One run_federated_experiment call in self.workdir with at most one injected fault."""
@@ -341,9 +358,14 @@ def plan(ctx):
                       'of the training/serialization modules reset to their import-time values; state hidden elsewhere '
                       '(other modules, class attributes) would survive',
                       'round-deterministic toy algorithm (state = hash chain over cohorts) with the real '
-                      'UniformGetClientSampler; thorough adds real FedAvg']
+                      'UniformGetClientSampler; plus a bfloat16 / weakly-typed-scalar state; one real FedAvg configuration (thorough: all checkpointing configurations)']
   cs = [{'cfg': c, 'stray': c['ckpt'] == 1 and c['num_rounds'] == 2, 'all_prefixes_depth': 1 if th else 0}
         for c in configs(th)]
+  cs += [{'cfg': c, 'algo': 'weak', 'all_prefixes_depth': -1} for c in configs(False)
+         if c['ckpt'] == 1 and c['num_rounds'] >= 2 and (th or c['eval'] == 0)][:(6 if th else 2)]
   if th:
     cs += [{'cfg': c, 'algo': 'fedavg', 'all_prefixes_depth': -1} for c in configs(False) if c['ckpt'] in (1, 2)]
+  else:
+    # one real FedAvg (momentum server optimizer) experiment; the caller's init_state object is reused by every re-run
+    cs += [{'cfg': {'num_rounds': 2, 'ckpt': 2, 'keep': 1, 'eval': 0}, 'algo': 'fedavg', 'all_prefixes_depth': -1}]
   ctx.pmap('explore', cs, chunk=1)
